@@ -6,13 +6,14 @@ C08  filters: no false negatives, len, hash_bits, false-positive acceptance rule
 C17  duplicates and injected I/O / rewind faults (TLC-enumerated scenarios + recipes)
 C16  build-time and query-time edges agree: sharded functions / filters answered through every
      query path (aligned and unaligned getters), hints across a sharding threshold
+C20  the builder rewinds both sources after every failed attempt (retry recipes)
 C11  mem_size against the documented bound, C12 never-inserted keys and empty
      structures, C15 the three reload paths."""
 import gen_vbuild as g
 
 FAMILY = "vbuild"
 TRACE_SPEC = "Trace_VBuild"
-PROPS = ["C07", "C08", "C17", "C11", "C12", "C15", "C16"]
+PROPS = ["C07", "C08", "C17", "C11", "C12", "C15", "C16", "C20"]
 
 LOOP_ACTIONS = ["MC_VBuild." + a for a in (
     "ApplyHint", "BeginAttempt", "ReadKeyOk", "ReadKeyIoError", "ReadValOk", "ReadValIoError", "EndOfKeys",
@@ -100,6 +101,11 @@ def episodes(prop, tier, seed):
         out["sharded"] = (g.sharded_logics(seed + 11, "func", sizes=(100000,) if q else (100000, 199999, 400000)), "verif")
         out["sharded-filters"] = (g.sharded_logics(seed + 12, "filter", sizes=(100000,) if q else (100000, 400000)), "verif")
         out["threshold-hints"] = (g.threshold_hints(seed + 13, thin=q), "verif")
+    if prop == "C20":
+        # "builders only rewind after a failed attempt": attempts that fail for every reason the loop knows
+        out["retry"] = (g.retry_recipes(seed + 12, "func", sizes=(200000,), per_size=1 if q else 3)
+                        + g.retry_recipes(seed + 13, "filter", sizes=(200000,), per_size=1 if q else 3)
+                        + g.small_n_functions(seed + 14, 40 if q else 300), "verif")
     if prop == "C11":
         out["space"] = (g.c11_episodes(seed, thorough=not q), "verif")
     if prop == "C12":
